@@ -125,10 +125,11 @@ package group
 //@ func Add
 //@   trusted
 //@   why group.go Add/add: looks the group up (creating it from its description file if needed) under groups.mu and g.mu, releases both;
-//@        may replace the description of an existing group and lock it (autolock); not yet verified here
+//@        may replace the description of an existing group and lock it (autolock); the description's time stamps are objects of their own,
+//@        allocated by the JSON decoder; not yet verified here
 //@   modifies groups.groups[*], groups.groups, lookup(name).description, lookup(name).locked
 //@   ensures found: isnil(result1) ==> result0 != nil && !held(result0.mu) && result0.description != nil && !isnil(result0.clients)
-//@        && ref(result0.description.NotBefore) != ref(result0) && ref(result0.description.Expires) != ref(result0)
+//@        && foreignobject(result0.description.NotBefore) && foreignobject(result0.description.Expires)
 //@   ensures same-or-new: isnil(result1) ==> (old(lookup(name)) != nil ? same(result0, old(lookup(name))) && same(result0.clients, old(lookup(name).clients)) : fresh(result0) && fresh(result0.clients))
 //@   ensures failed: !isnil(result1) ==> result0 == nil
 //@
@@ -353,3 +354,202 @@ package group
 //@   safe
 //@   props C12
 //@   modifies nothing
+//@
+//@ -- ------------------------------------------------------------------ group definition files (C17, C18)
+//@ global std-errors-set: os.ErrNotExist != nil && ErrTagMismatch != nil && ErrDescriptionsNotWritable != nil
+//@
+//@ extern token.ParseKeys
+//@   why token/jwt.go: validates a list of JWKs; no effect on program state (not yet verified here)
+//@   modifies nothing
+//@
+//@ func makeETag
+//@   trusted
+//@   why description.go: fmt.Sprintf("\"%v-%v\"", size, mtime in ns): a deterministic function of its arguments that always starts with a quote, hence never the empty tag
+//@   pure
+//@   ensures nonempty: result != ""
+//@
+//@ func readDescription
+//@   trusted
+//@   why description.go: opens and parses the group's JSON file into a NEW Description (its maps, slices and user records are new objects too), stamps file name, size and mtime; no effect on program state
+//@   modifies nothing
+//@   fresh
+//@   ensures one: isnil(result0) == (result1 != nil)
+//@   ensures new-parts: !isnil(result0) ==> (isnil(result0.Users) || fresh(result0.Users)) && (result0.WildcardUser == nil || fresh(result0.WildcardUser))
+//@
+//@ func GetConfiguration
+//@   trusted
+//@   why group.go: returns the cached or re-read server configuration under its own mutex (not yet verified here)
+//@   modifies nothing
+//@   ensures one: isnil(result0) == (result1 != nil)
+//@
+//@ func GetDescription
+//@   trusted
+//@   why description.go: the cached description of a running group if its file is unchanged, else a newly parsed one (not yet verified here)
+//@   modifies nothing
+//@   ensures one: isnil(result0) == (result1 != nil)
+//@
+//@ func rewriteDescriptionFile
+//@   props C18 C12
+//@   requires nonnil: desc != nil
+//@   modifies nothing
+//@   -- C18 (atomic replacement): the temporary file lives in the target's own directory,
+//@   assert at call CreateTemp same-dir: arg0 == dir
+//@   -- it receives the whole description,
+//@   assert at call Encode whole: ref(arg_v) == ref(desc)
+//@   -- the definition's own path is touched by exactly one operation, the rename, and only after the temporary file
+//@   -- has been completely written, synced to disk and closed without error
+//@   assert at call Rename complete: callresult("Encode", 1) == nil && callresult("Sync", 1) == nil && callresult("Close", 2) == nil
+//@   assert at call Rename target: arg0 == temp && arg1 == filename
+//@   -- every clean-up removes the temporary file, never the definition
+//@   assert at call Remove#1 temp-only: arg0 == temp
+//@   assert at call Remove#2 temp-only: arg0 == temp
+//@   assert at call Remove#3 temp-only: arg0 == temp
+//@   -- nothing is written unless the configuration allows it
+//@   assert at call MkdirAll writable: first(callresult("GetConfiguration", 1)).WritableGroups
+//@   -- success means the rename happened
+//@   proves renamed: result == nil ==> callresult("Rename", 1) == nil
+//@
+//@ func UpdateDescription
+//@   props C17 C18 C13 C12
+//@   requires nonnil: desc != nil
+//@   requires unlocked: !held(groups.mu)
+//@   modifies held(groups.mu)
+//@   ensures unlocked: !held(groups.mu)
+//@   -- C18: the definition is read, compared with the tag and replaced inside ONE critical section of groups.mu
+//@   assert at call readDescription locked: held(groups.mu)
+//@   assert at call rewriteDescriptionFile locked: held(groups.mu)
+//@   -- C18: it is replaced only if the caller's tag is the tag of the file just read (empty tag: only if there is no file)
+//@   assert at call rewriteDescriptionFile tag-current: isnil(old$1) ? etag == "" : etag == makeETag(old$1.fileSize, old$1.modTime)
+//@   assert at call rewriteDescriptionFile same-file: !isnil(old$1) ==> arg_filename == old$1.FileName
+//@   -- C17: users, wildcard user and keys are carried over from the stored definition, whatever the request contains
+//@   assert at call rewriteDescriptionFile keeps-secrets: !isnil(old$1) ==> same(arg_desc.Users, old$1.Users) && arg_desc.WildcardUser == old$1.WildcardUser && same(arg_desc.AuthKeys, old$1.AuthKeys)
+//@   -- C17: and a request that carries any is refused outright; the caller's description is never modified
+//@   ensures unsanitised: !isnil(old(desc.Users)) || old(desc.WildcardUser) != nil || !isnil(old(desc.AuthKeys)) ==> result != nil
+//@   ensures input-intact: unchangedobject(desc)
+//@
+//@ func GetSanitisedDescription
+//@   props C17 C12
+//@   modifies nothing
+//@   -- C17: what is disclosed is a private copy without users, wildcard user and keys
+//@   ensures no-secrets: result2 == nil ==> !isnil(result0) && fresh(result0) && isnil(result0.Users) && result0.WildcardUser == nil && isnil(result0.AuthKeys)
+//@   ensures error: result2 != nil ==> isnil(result0) && result1 == ""
+//@
+//@ func GetSanitisedUser
+//@   props C17 C12
+//@   modifies nothing
+//@   -- C17: no password material leaves this function
+//@   ensures no-password: result0.Password.Type == "" && result0.Password.Hash == "" && result0.Password.Key == nil && result0.Password.Salt == "" && result0.Password.Iterations == 0
+//@
+//@ func SetKeys
+//@   props C17 C18 C13 C12
+//@   requires unlocked: !held(groups.mu)
+//@   modifies held(groups.mu)
+//@   ensures unlocked: !held(groups.mu)
+//@   assert at call readDescription locked: held(groups.mu)
+//@   assert at call rewriteDescriptionFile locked: held(groups.mu)
+//@   -- C17: only the keys change: every other field, the users and the wildcard user are as just read
+//@   assert at call rewriteDescriptionFile only-keys: arg_desc == desc && arg_filename == desc.FileName
+//@        && same(desc.Users, atcall("readDescription", 1, desc.Users)) && desc.WildcardUser == atcall("readDescription", 1, desc.WildcardUser)
+//@        && same(desc.AuthKeys, keys)
+//@
+//@ func getDescriptionFile[os.FileInfo]
+//@   trusted
+//@   why description.go: os.Stat of the group's file (of the closest existing ancestor's when subgroups are allowed); no effect on program state
+//@   modifies nothing
+//@   ensures one: result3 == nil ==> result0 != nil
+//@
+//@ func GetDescriptionTag
+//@   props C18 C12
+//@   modifies nothing
+//@
+//@ func DeleteDescription
+//@   props C18 C13 C12
+//@   requires unlocked: !held(groups.mu)
+//@   modifies held(groups.mu)
+//@   ensures unlocked: !held(groups.mu)
+//@   -- C18: stat, tag comparison and removal happen inside one critical section; the file removed is the one examined,
+//@   -- and it is removed only if the caller's tag is the tag of the file as it is now
+//@   assert at call getDescriptionFile[os.FileInfo] locked: held(groups.mu)
+//@   assert at call Remove locked: held(groups.mu)
+//@   assert at call Remove tag-current: etag == makeETag(icall("os.FileInfo.Size", fi), icall("os.FileInfo.ModTime", fi)) && arg0 == fileName
+//@
+//@ func DeleteUser
+//@   props C17 C18 C13 C12
+//@   requires unlocked: !held(groups.mu)
+//@   modifies held(groups.mu)
+//@   ensures unlocked: !held(groups.mu)
+//@   assert at call readDescription locked: held(groups.mu)
+//@   assert at call rewriteDescriptionFile locked: held(groups.mu)
+//@   -- C18: the user is deleted only if the caller's tag is the tag of the definition just read
+//@   assert at call rewriteDescriptionFile tag-current: etag == makeETag(desc.fileSize, desc.modTime)
+//@   -- C17: the definition written back is the one read, in its own file; keys untouched; exactly the addressed user goes
+//@   assert at call rewriteDescriptionFile same-file: arg_desc == desc && arg_filename == desc.FileName
+//@        && same(desc.AuthKeys, atcall("readDescription", 1, desc.AuthKeys)) && same(desc.Users, atcall("readDescription", 1, desc.Users))
+//@   assert at call rewriteDescriptionFile others-kept-w: wildcard ==>
+//@        (forall k string :: has(desc.Users, k) == atcall("readDescription", 1, has(desc.Users, k))
+//@            && (has(desc.Users, k) ==> desc.Users[k].Password.Hash == atcall("readDescription", 1, desc.Users[k].Password.Hash)))
+//@   assert at call rewriteDescriptionFile others-kept: !wildcard ==> desc.WildcardUser == atcall("readDescription", 1, desc.WildcardUser)
+//@        && (forall k string :: k != username ==> has(desc.Users, k) == atcall("readDescription", 1, has(desc.Users, k))
+//@            && (has(desc.Users, k) ==> desc.Users[k].Password.Hash == atcall("readDescription", 1, desc.Users[k].Password.Hash)
+//@                  && desc.Users[k].Password.Type == atcall("readDescription", 1, desc.Users[k].Password.Type)
+//@                  && desc.Users[k].Password.Key == atcall("readDescription", 1, desc.Users[k].Password.Key)
+//@                  && desc.Users[k].Password.Salt == atcall("readDescription", 1, desc.Users[k].Password.Salt)
+//@                  && desc.Users[k].Password.Iterations == atcall("readDescription", 1, desc.Users[k].Password.Iterations)))
+//@
+//@ func UpdateUser
+//@   props C17 C18 C13 C12
+//@   requires nonnil: user != nil
+//@   requires unlocked: !held(groups.mu)
+//@   modifies held(groups.mu)
+//@   ensures unlocked: !held(groups.mu)
+//@   ensures input-intact: unchangedobject(user)
+//@   -- C17: a request that carries password material is refused
+//@   ensures unsanitised: old(user.Password.Type) != "" || old(user.Password.Key) != nil ==> result != nil
+//@   assert at call readDescription locked: held(groups.mu)
+//@   assert at call rewriteDescriptionFile locked: held(groups.mu)
+//@   -- C18: the user is replaced only if the caller's tag is current, created only if absent and the tag empty
+//@   assert at call rewriteDescriptionFile tag-current: etag == (ok ? makeETag(desc.fileSize, desc.modTime) : "")
+//@   assert at call rewriteDescriptionFile tag-exists: !wildcard ==> ok == atcall("readDescription", 1, has(desc.Users, username))
+//@   -- C17: the stored password of the addressed user survives the update
+//@   assert at call rewriteDescriptionFile password-kept: !wildcard && ok ==> has(desc.Users, username)
+//@        && desc.Users[username].Password.Type == atcall("readDescription", 1, desc.Users[username].Password.Type)
+//@        && desc.Users[username].Password.Hash == atcall("readDescription", 1, desc.Users[username].Password.Hash)
+//@        && desc.Users[username].Password.Key == atcall("readDescription", 1, desc.Users[username].Password.Key)
+//@        && desc.Users[username].Password.Salt == atcall("readDescription", 1, desc.Users[username].Password.Salt)
+//@        && desc.Users[username].Password.Iterations == atcall("readDescription", 1, desc.Users[username].Password.Iterations)
+//@   assert at call rewriteDescriptionFile password-kept-w: wildcard && ok ==> desc.WildcardUser != nil
+//@        && desc.WildcardUser.Password.Type == atcall("readDescription", 1, desc.WildcardUser.Password.Type)
+//@        && desc.WildcardUser.Password.Hash == atcall("readDescription", 1, desc.WildcardUser.Password.Hash)
+//@        && desc.WildcardUser.Password.Key == atcall("readDescription", 1, desc.WildcardUser.Password.Key)
+//@   -- C17: no other user, and no key, is touched
+//@   assert at call rewriteDescriptionFile same-file: arg_desc == desc && arg_filename == desc.FileName
+//@        && same(desc.AuthKeys, atcall("readDescription", 1, desc.AuthKeys))
+//@   assert at call rewriteDescriptionFile others-kept: !wildcard ==> desc.WildcardUser == atcall("readDescription", 1, desc.WildcardUser)
+//@        && (forall k string :: k != username && !isnil(atcall("readDescription", 1, desc.Users)) ==> has(desc.Users, k) == atcall("readDescription", 1, has(desc.Users, k))
+//@            && (has(desc.Users, k) ==> desc.Users[k].Password.Hash == atcall("readDescription", 1, desc.Users[k].Password.Hash)
+//@                  && desc.Users[k].Password.Type == atcall("readDescription", 1, desc.Users[k].Password.Type)
+//@                  && desc.Users[k].Password.Key == atcall("readDescription", 1, desc.Users[k].Password.Key)))
+//@
+//@ func SetUserPassword
+//@   props C17 C13 C12
+//@   requires unlocked: !held(groups.mu)
+//@   modifies held(groups.mu)
+//@   ensures unlocked: !held(groups.mu)
+//@   assert at call readDescription locked: held(groups.mu)
+//@   assert at call rewriteDescriptionFile locked: held(groups.mu)
+//@   -- C17: only an existing user's password is set; no user is created, no other user's password and no key changes
+//@   assert at call rewriteDescriptionFile same-file: arg_desc == desc && arg_filename == desc.FileName
+//@        && same(desc.AuthKeys, atcall("readDescription", 1, desc.AuthKeys)) && same(desc.Users, atcall("readDescription", 1, desc.Users))
+//@        && desc.WildcardUser == atcall("readDescription", 1, desc.WildcardUser)
+//@   assert at call rewriteDescriptionFile existing: wildcard ? desc.WildcardUser != nil : atcall("readDescription", 1, has(desc.Users, username))
+//@   assert at call rewriteDescriptionFile others-kept: !wildcard ==>
+//@        (forall k string :: k != username ==> has(desc.Users, k) == atcall("readDescription", 1, has(desc.Users, k))
+//@            && (has(desc.Users, k) ==> desc.Users[k].Password.Hash == atcall("readDescription", 1, desc.Users[k].Password.Hash)
+//@                  && desc.Users[k].Password.Type == atcall("readDescription", 1, desc.Users[k].Password.Type)
+//@                  && desc.Users[k].Password.Key == atcall("readDescription", 1, desc.Users[k].Password.Key)))
+//@   assert at call rewriteDescriptionFile set: !wildcard ==> has(desc.Users, username) && desc.Users[username].Password.Hash == pw.Hash && desc.Users[username].Password.Type == pw.Type
+//@
+//@ func GetUsers
+//@   props C17 C12
+//@   modifies nothing
+//@   invariant loop 1 own: fresh(users)
